@@ -185,6 +185,8 @@ def run(cx, rep):
     # ---------------------------------------------------------------- C11.3
     rep.rule("C11.5", "open-object inclusion never decides which members of a printed union are kept")
     open_inclusion_callers_rule(cx, rep, "C11.5")
+    rep.rule("C11.6", "strict mode finds undeclared keys by name, never by counting (= C03.13)")
+    ts_common.key_count_rule(cx, rep, "C11.6", methods=("validate", "reportDecodeError"))
     rep.rule("C11.3", "conjunctive delegation counts the keys of all members")
     for cname, mname, fn in ts_common.family_methods(fam, ("validate",)):
         ps = ts_common.fn_params(fn)
